@@ -382,9 +382,20 @@ def check_wrapper(run, pkg, wname, inner):
         # `not snapshot` is a truthiness test: a frame object must be truthy whatever it holds
         ci = pkg.cls("reader.reader_utils.SingleSnapshot")
         falsy = [m for m in ("__bool__", "__len__") if m in ci.methods]
-        run.ob("R-LOOPDOM", fq, "sentinel-truthiness", True if not falsy else None, "the sentinel test relies on frame objects always being truthy: SingleSnapshot defines neither __bool__ nor __len__",
-               f"defines {falsy}" if falsy else "plain dataclass", witness=None if not falsy else
-               "a frame with NUMBER OF ATOMS 0 (empty dump group) is falsy: it and every later frame are silently dropped", loc=ci.module.relpath + f":{ci.node.lineno}")
+        verdict = True if not falsy else None
+        det = f"defines {falsy}" if falsy else "plain dataclass"
+        for m in falsy[:1]:
+            # the truth value is computed from the frame's data (a count that can be zero): definite; a constant truthy return is fine
+            mit = interp(pkg, ci.methods[m].qual)
+            rv = [r.data["value"] for r in mit.returns]
+            if rv and all(is_const(v) and bool(v[1]) for v in rv):
+                verdict, det = True, f"{m} always returns {show(rv[0])}"
+            elif rv and any(any(x[0] == "attr" and x[1] == ("sym", mit.fi.params[0]) and x[2] in ci.fields for x in walk(v)) for v in rv):
+                verdict, det = False, f"{m} returns {show(rv[0])[:60]}"
+        run.ob("R-LOOPDOM", fq, "sentinel-truthiness", verdict, "the sentinel test relies on frame objects always being truthy: SingleSnapshot defines neither __bool__ nor __len__ (or one that is constantly true)",
+               det, witness=None if verdict is not False else
+               "a frame with no (selected) atoms - ITEM: NUMBER OF ATOMS 0, or no atom of a centre type - is falsy: it is taken for end-of-file and it and every later frame are silently dropped",
+               loc=ci.module.relpath + f":{ci.node.lineno}", sound=True)
     app = [e for e in it.events if e.kind == "call" and e.data["call"][1] == ".append" and e.loops == ce.loops]
     ok_a = len(app) == 1 and app[0].data["call"][2][1] == snap and app[0].seq > (brk[0].seq if brk else -1)
     run.ob("R-LOOPDOM", fq, "append", True if ok_a else None, "every frame read is appended once, in read order", f"{len(app)} appends",
